@@ -513,6 +513,24 @@ def run(ctx):
             ctx.violation(f'a plain message sent under a sequence number that an earlier, fully answered segment of another message had used ({variant}): '
                           f'its outcome is attributed to message(s) {logs_seen} instead of [2] (hook calls {obs[-1]})',
                           {'function': 'history', 'history': [list(e) for e in hist]})
+    # ---- a message taken from the broker while the session is being torn down after a connection loss gets its outcome too
+    from harness import C06 as _C06
+    from aiosmpplib.protocol import SubmitSm as _S, SubmitSmResp as _R
+    from aiosmpplib.state import PhoneNumber as _PN
+    for lag in ([0.0, 0.1, 0.3, 0.45, 0.6] if ctx.thorough else [0.0, 0.3]):
+        for long_text in (False, True):
+            def mk(j, long_text=long_text):
+                return _S(short_message=('seg ' * 100 if long_text and j == 1 else 'text%d' % j), source=_PN('38599'), destination=_PN('38591'),
+                          log_id=f'T{j}', extra_data=f'X{j}', auto_message_payload=not (long_text and j == 1))
+            obs = _C06.run_teardown(mk, lag=lag)
+            ctx.traces += 1
+            ctx.case(('teardown', lag, long_text), nontrivial=True)
+            for j in range(3):
+                n_out = sum(1 for e in obs['log'] if (e[0] == 'send_error' and getattr(e[1], 'log_id', '') == f'T{j}')
+                            or (e[0] == 'received' and isinstance(e[1], _R) and e[1].log_id == f'T{j}'))
+                if n_out != 1 and not obs['start_done']:
+                    ctx.violation(f'message T{j} (queued {"%.2f s after" % lag if j == 1 else "outside"} the moment the session noticed the loss of the connection'
+                                  f'{", segmented" if long_text and j == 1 else ""}) got {n_out} outcomes', {'scenario': 'teardown', 'lag': lag, 'long_text': long_text})
     # ---- more than 255 reference-taking messages in flight at once
     for n_between in (254, 255):
         obs = ref_collision_session(n_between)
@@ -541,6 +559,9 @@ def replay(ctx, path):
         n_msgs, wrap = r2.choice([1, 2, 4, 6]), r2.random() < 0.3
         obs = play_session(r2, n_msgs, wrap)
         msg = oracle_session(obs)
+    elif r.get('scenario') == 'teardown':
+        print('replay: run ./check C06 --replay with the same scenario (harness/C06.run_teardown) - lag', r['lag'], 'long_text', r['long_text'])
+        return 0
     elif r.get('scenario') == 'reference_collision':
         msg = oracle_session(ref_collision_session(r['n_between']))
     else:
